@@ -339,7 +339,14 @@ func (p *Parser) parseBuffer(buf []byte, last bool) (err error) {
 						return
 					}
 				case 't':
+					// Handle the open in the mode that follows the
+					// token just like a token in the middle of a buffer.
 					p.addToken(off)
+					if depth == 0 {
+						p.deliver()
+					}
+					off--
+					continue
 				}
 			}
 			p.starts = append(p.starts, -1)
@@ -463,6 +470,11 @@ func (p *Parser) parseBuffer(buf []byte, last bool) (err error) {
 					}
 				case 't':
 					p.addToken(off)
+					if depth == 0 {
+						p.deliver()
+					}
+					off--
+					continue
 				}
 			}
 			p.starts = append(p.starts, len(p.stack))
@@ -533,8 +545,18 @@ func (p *Parser) parseBuffer(buf []byte, last bool) (err error) {
 			p.tmp = append(p.tmp, b)
 		case tokenSpc:
 			p.addToken(off)
+			if b == ',' {
+				// Look at the comma again in the mode that follows the
+				// token, it is not allowed after a key.
+				off--
+			}
 		case tokenColon:
 			p.addToken(off)
+			if p.mode != colonMap {
+				// Not a key so the same as a token that did not end at
+				// the end of a buffer.
+				return p.newError(off, "unexpected character ':'")
+			}
 			p.mode = valueMap
 		case tokenNlColon:
 			p.addToken(off)
@@ -684,6 +706,16 @@ func (p *Parser) parseBuffer(buf []byte, last bool) (err error) {
 			_ = p.add(v, off)
 			p.mode = valueMap
 		case charErr:
+			if 256 < len(p.mode) && p.mode[256] == 't' && (b == '"' || b == '\'') {
+				// A quote ends a token that started in the previous
+				// buffer just as it does in the middle of a buffer.
+				p.addToken(off)
+				if depth == 0 {
+					p.deliver()
+				}
+				off--
+				continue
+			}
 			return p.byteError(off, p.mode, b, bytes.Runes(buf[off:])[0])
 		}
 		if depth == 0 && 256 < len(p.mode) && p.mode[256] == 'v' {
